@@ -175,7 +175,12 @@ struct VSys {
     if (op < W.size()) {
       const int id = id_base + (int)s.t.n;
       s.t.add(id, W[op]);
-      try { s.sk->update(id, W[op]); }
+      try {
+        // an item of weight 0 is documented as ignored: offered before every update, it must leave the sketch exactly as it was
+        { std::string c0; canon_sketch(c0, *s.sk); s.sk->update(-1 - id, 0.0); std::string c1; canon_sketch(c1, *s.sk);
+          if (c0 != c1) s.broken = "zero-weight-update-changes-nothing|update(item, 0.0) changed the sketch (n " + str(s.sk->get_n()) + ")"; }
+        if (s.broken.empty()) s.sk->update(id, W[op]);
+      }
       catch (const std::exception& e) { s.broken = std::string("update-threw|update(") + str(id) + "," + wstr(W[op]) + ") threw: " + e.what(); }
       return true;
     }
